@@ -24,7 +24,7 @@ Record lst := {
   accepting : bool;
   l_closed : bool;              (* listener Close was called *)
   refs : Z;                     (* connWG *)
-  filter_kind : Z               (* accept filter: 0 none, 1 first byte odd, 2 reject all *)
+  filter_kind : Z               (* accept filter: 0 none, 1 first byte odd, 2 reject all, 3 empty or first byte odd *)
 }.
 
 Definition sock_closed (s : lst) : bool := refs s <=? 0.
@@ -35,7 +35,9 @@ Definition l_init (bl fk : Z) : lst :=
 
 Definition filter_admits (k : Z) (p : list Z) : bool :=
   if k =? 1 then match p with x :: _ => Z.odd x | [] => false end
-  else if k =? 2 then false else true.
+  else if k =? 2 then false
+  else if k =? 3 then match p with x :: _ => Z.odd x | [] => true end
+  else true.
 
 Fixpoint lookup (m : list (Z * nat)) (r : Z) : option nat :=
   match m with [] => None | (r', id) :: t => if r' =? r then Some id else lookup t r end.
